@@ -31,7 +31,10 @@ func simConfig(sc SchedCfg, maxSteps uint64) simrt.Config {
 
 // genSched draws a scheduling policy (swarm style: one per run).
 func genSched(rng *simrt.Rng, seed uint64, concurrent bool) SchedCfg {
-	sc := SchedCfg{Seed: seed, Clock: rng.Pick([]int{6, 1, 2})}
+	// clock modes: 0 = monotone with random increments, 2 = jumping (also
+	// backwards). A frozen clock is not a behaviour of real deployments and
+	// would make any time-derived write verifier repeat, so it is not drawn.
+	sc := SchedCfg{Seed: seed, Clock: []int{0, 0, 0, 2}[rng.Intn(4)]}
 	switch rng.Pick([]int{6, 2, 1}) {
 	case 0:
 		sc.Policy = "rw"
